@@ -486,6 +486,15 @@ func (inst *InstCall) LLString() string {
 		}
 		buf.WriteString(arg.String())
 	}
+	// A musttail call in a variadic function forwards the variadic arguments of
+	// its caller, which is spelled with a trailing ellipsis. Caller and callee of
+	// a musttail call agree in being variadic.
+	if inst.Tail == enum.TailMustTail && inst.Sig().Variadic {
+		if len(inst.Args) != 0 {
+			buf.WriteString(", ")
+		}
+		buf.WriteString("...")
+	}
 	buf.WriteString(")")
 	for _, attr := range inst.FuncAttrs {
 		fmt.Fprintf(buf, " %s", attr)
